@@ -380,3 +380,84 @@ func VH_C11_cli() {
 	vAssert("C11.cli.variants-run-ok", e3 == nil && e4 == nil)
 	vAssert("C11.cli.variants-equals-library-call", vReadFile(out2) == string(w2.buf) && len(w2.buf) > 0)
 }
+
+// VH_C19_cli_limit: every command writing to a regular file that accepts only the first n bytes (n symbolic:
+// any failure point from the header to the last row; natively RLIMIT_FSIZE) exits with an error; and with room
+// for everything it succeeds. sam toPairAlign is driven with its stdout form (os.Stdout standing for a regular
+// file) and with its directory form.
+func VH_C19_cli_limit() {
+	ref := vFile("ref.fa", []byte(">ref\nACGT\n"))
+	aln := vFile("aln.fa", []byte(">s0\nACGA\n>s1\nTCGT\n"))
+	samf := vFile("in.sam", []byte(vCliSam))
+	ref8 := vFile("ref8.fa", []byte(">ref\nACGTACGT\n"))
+	gb := vFile("anno.gb", []byte("LOCUS       TEST 4 bp DNA\nFEATURES             Location/Qualifiers\n     CDS             1..3\n                     /gene=\"g\"\n                     /codon_start=1\n                     /translation=\"T\"\nORIGIN\n        1 acgt\n//\n"))
+	gb8 := vFile("anno8.gb", []byte("LOCUS       TEST 8 bp DNA\nFEATURES             Location/Qualifiers\n     CDS             1..6\n                     /gene=\"g\"\n                     /codon_start=1\n                     /translation=\"TY\"\nORIGIN\n        1 acgtacgt\n//\n"))
+	out := vFile("out.txt", nil)
+	command := vChoice("command", 14)
+	toStdout := false
+	dir := ""
+	var args []string
+	switch command {
+	case 0:
+		args = []string{"snps", "-r", ref, "-q", aln, "-o", out, "--aggregate=false"}
+	case 1:
+		args = []string{"snps", "-r", ref, "-q", aln, "-o", out, "--aggregate=true"}
+	case 2:
+		args = []string{"closest", "--query", aln, "--target", aln, "-m", "snp", "-n", "0", "-d", "", "-t", "1", "-o", out}
+	case 3:
+		args = []string{"closest", "--query", aln, "--target", aln, "-m", "raw", "-n", "2", "-d", "", "-t", "1", "--table=false", "-o", out}
+	case 4:
+		args = []string{"closest", "--query", aln, "--target", aln, "-m", "raw", "-n", "2", "-d", "", "-t", "1", "--table=true", "-o", out}
+	case 5:
+		args = []string{"updown", "list", "-r", ref, "-q", aln, "-o", out}
+	case 6:
+		args = []string{"updown", "topranking", "-q", aln, "-t", aln, "-r", ref, "--dist-all", "4", "--table=false", "-o", out}
+	case 7:
+		args = []string{"updown", "topranking", "-q", aln, "-t", aln, "-r", ref, "--dist-all", "4", "--table=true", "-o", out}
+	case 8:
+		args = []string{"variants", "--msa", aln, "-a", gb, "-o", out, "-t", "1", "--start", "-1", "--end", "-1", "--aggregate=false"}
+	case 9:
+		args = []string{"variants", "--msa", aln, "-a", gb, "-o", out, "-t", "1", "--start", "-1", "--end", "-1", "--aggregate=true"}
+	case 10:
+		args = []string{"sam", "toMultiAlign", "-s", samf, "-t", "1", "-o", out, "--start", "-1", "--end", "-1", "--trimstart", "-1", "--trimend", "-1", "--trim=false", "--wrap", "-1"}
+	case 11:
+		args = []string{"sam", "variants", "-s", samf, "-t", "1", "-a", gb8, "-o", out}
+	case 12:
+		toStdout = true
+		args = []string{"sam", "toPairAlign", "-s", samf, "-r", ref8, "-t", "1", "-o", "stdout", "--start", "-1", "--end", "-1", "--wrap", "-1", vBoolFlag("omit-reference", vBool("omitReference")), "--skip-insertions=false"}
+	case 13:
+		dir = vDir() + "/pairs"
+		args = []string{"sam", "toPairAlign", "-s", samf, "-r", ref8, "-t", "1", "-o", dir, "--start", "-1", "--end", "-1", "--wrap", "-1", vBoolFlag("omit-reference", vBool("omitReference")), "--skip-insertions=false"}
+	}
+	run := func() (error, int) {
+		if toStdout {
+			vStdoutToFile()
+		}
+		err := vCLI(args...)
+		n := 0
+		switch {
+		case toStdout:
+			n = len(vStdout())
+		case dir != "":
+			a, b := len(vReadFile(dir+"/q1.fasta")), len(vReadFile(dir+"/q2.fasta"))
+			n = a
+			if b > n {
+				n = b
+			}
+		default:
+			n = len(vReadFile(out))
+		}
+		return err, n
+	}
+	e0, total := run()
+	vAssert("C19.cli.limit.unlimited-run-ok", e0 == nil && total > 0)
+	n := vChoice("accepted", total+1)
+	vFileSizeLimit(n)
+	err, _ := run()
+	vFileSizeLimit(-1)
+	if n < total {
+		vAssert("C19.cli.limit.failed-write-is-reported", err != nil)
+	} else {
+		vAssert("C19.cli.limit.room-for-everything-no-error", err == nil)
+	}
+}
